@@ -8,7 +8,7 @@ from ..cfg import cfg_of, dominating_edges, edge_dominates, node_calls, reach
 from ..defuse import def_value, defs_of, reaching_defs, resolve_alias
 from ..esp import UNKNOWN, run_method
 from ..model import Repo, ancestors, body_nodes, norm, parent, short
-from .common import dispatch_ops, op_table, trace_str
+from .common import stale_bindings, dispatch_ops, op_table, trace_str
 
 
 def check(repo: Repo, rep, tier):
@@ -20,6 +20,7 @@ def check(repo: Repo, rep, tier):
     equal_keeps(repo, rep)
     by_key(repo, rep)
     pair_len(repo, rep)
+    stale_bindings(repo, rep, None, "e.g. a copied compare-only flag stays False while a list is aligned, so nested snapshots are committed to the elements they are merely tried against")
 
 
 def eq_edges(cfg):
